@@ -54,6 +54,16 @@ fn judge_text(s: &str) -> Option<(String, String)> {
             return Some(("not-verbatim".into(), format!("accepted {s:?} but kept {:?}", c.to_string())));
         }
     }
+    if let Ok(c) = &got2 {
+        if c.to_string() != s {
+            return Some(("not-verbatim:new".into(), format!("FileCaps::new accepted {s:?} but kept {:?}", c.to_string())));
+        }
+    }
+    if let (Ok(a), Ok(b)) = (&got, &got2) {
+        if a.to_string() != b.to_string() {
+            return Some(("from_str-vs-new:value".into(), format!("FromStr and FileCaps::new give different values for {s:?}")));
+        }
+    }
     match (want, &got) {
         (Verdict::Accept, Err(e)) => Some((format!("rejects-well-formed:{}", normalize_msg(&e.to_string())), format!("{s:?} is well formed but rejected: {e}"))),
         (Verdict::Reject, Ok(_)) => Some((format!("accepts-malformed:{why}"), format!("{s:?} is outside the grammar ({why}) but accepted"))),
